@@ -19,7 +19,7 @@ def envs_for(rng, n, quick):
         if rng.chance(1, 2) and not e["rules"]:
             e["rules"] = pipeline.rw_rules(rng, "l")
         if rng.chance(1, 3):
-            e["dirty"] = {"kind": rng.choice(["longer", "shorter", "other_program", "garbage"]), "fill": rng.hexbytes(8)}
+            e["dirty"] = {"kind": rng.choice(["longer", "shorter", "other_program", "garbage", "older_revision"]), "fill": rng.hexbytes(8)}
     return envs
 
 
